@@ -41,13 +41,18 @@ def direct_case(rng):
     length = rng.choice([1, 2, 3, 10, 40, 120])
     feed = []
     level = {a: 10 ** rng.uniform(-1, 3) for a in assets}
+    jump = rng.random() < 0.3
     for _ in range(length):
         order = list(assets)
         rng.shuffle(order)
         for a in order:
             if rng.random() < 0.85:
                 level[a] = max(0.01, level[a] * (1 + rng.gauss(0, 0.03)))
-                feed.append([a, round(level[a], rng.choice([2, 4, 8]))])
+                if jump and rng.random() < 0.05:
+                    level[a] = max(1e-6, level[a] * rng.choice([1e-9, 1e-12, 1e9, 1e-6]))   # re-denomination
+                    feed.append([a, float('%.6g' % level[a])])
+                    continue
+                feed.append([a, round(level[a], rng.choice([2, 4, 8])) if level[a] >= 0.01 else float('%.6g' % level[a])])
     return {'kind': kind, 'assets': assets, 'lookbacks': lbs, 'feed': feed}
 
 
@@ -105,7 +110,20 @@ def run_shard(spec, acc):
         else:
             cfg = sesswl.gen_cfg(rng, alpha_kinds=ALPHAS, universe_kinds=('static', 'dynamic', 'dynamic'),
                                  max_days=60 if spec['tier'] == 'quick' else 200, full_data=False, n_assets=rng.randint(2, 6))
-            tr, _ = sesswl.run_case(cfg, acc, PROP)
+            if cfg['universe']['kind'] == 'dynamic' and rng.random() < 0.4:
+                # the universe object already served an earlier session: a late entrant must still start empty
+                world = sesswl.make_world(cfg)
+                try:
+                    shared = {'share_universe': True}
+                    sesswl.run_session(dict(cfg, burn_in=None), world, shared=shared)
+                    shared.pop('source', None)
+                    tr = sesswl.run_session(cfg, world, shared=shared)
+                    core.guarded(PROP, acc, dict(cfg, reuse_universe=True), sesswl.check_c16_session, cfg, world, tr, acc)
+                    acc.count('C16:sessions_on_reused_universe')
+                finally:
+                    world.close()
+            else:
+                tr, _ = sesswl.run_case(cfg, acc, PROP)
             acc.count('sessions:%s' % cfg['alpha']['kind'])
             if tr.error is not None:
                 acc.count('sessions_ended_by:%s' % tr.error[0])
@@ -115,7 +133,18 @@ def run_shard(spec, acc):
 
 
 def replay(case, acc):
-    if case.get('kind') == 'direct':
+    if case.get('reuse_universe'):
+        cfg = {k: v for k, v in case.items() if k != 'reuse_universe'}
+        world = sesswl.make_world(cfg)
+        try:
+            shared = {'share_universe': True}
+            sesswl.run_session(dict(cfg, burn_in=None), world, shared=shared)
+            shared.pop('source', None)
+            tr = sesswl.run_session(cfg, world, shared=shared)
+            core.guarded(PROP, acc, case, sesswl.check_c16_session, cfg, world, tr, acc)
+        finally:
+            world.close()
+    elif case.get('kind') == 'direct':
         try:
             run_direct(case['case'], acc)
         except core.Violation as v:
